@@ -44,6 +44,9 @@ class TimeoutDict(Generic[K, V]):
         self._items[key] = value
         self._accessed(key)
 
+    def __delitem__(self, key):
+        del self._items[key]
+
     def _start_over(self):
         """Clear _recently_accessed, set the timeout"""
         self._timeout = asyncio.get_running_loop().call_later(self.timeout, self._tick)
